@@ -15,9 +15,14 @@ def one(name, checks):
         rc,out=sh(f"git apply --whitespace=nowarn {VERIF}/benign/{name}", wt)
         if rc!=0: return name,{'error':'apply failed '+out[-200:]}
         env=dict(os.environ); env['VERIF_REPO']=wt; env['VERIF_OUT_BASE']=wt+'-out'
+        rc_all,out_all=sh(f"python3 tools/checkall.py --tier quick {' '.join(checks)}", VERIF, env)
+        chunks={}; cur=[]
+        for l in out_all.splitlines():
+            if l.startswith('EXIT '):
+                _,c0,code=l.split(); chunks[c0]=(int(code),cur); cur=[]
+            else: cur.append(l)
         for c in checks:
-            rc,out=sh(f"./check {c} --tier quick", VERIF, env)
-            lines=out.splitlines()
+            rc,lines=chunks.get(c,(2,['ANALYSIS-INCOMPLETE no output: '+out_all[-300:]]))
             bad=[l for l in lines if l.startswith('VIOLATION') or l.startswith('ANALYSIS-INCOMPLETE')]
             first=''
             for i,l in enumerate(lines):
